@@ -2,6 +2,7 @@ import Pandora.Drv.Util
 import Pandora.Model.C08
 import Pandora.Model.C08Chan
 import Pandora.Model.C08Mach
+import Pandora.Model.C08Fault
 import Pandora.Spec.C08
 
 namespace Pandora.Drv.C08
@@ -16,7 +17,7 @@ def parseKind : String → Option Kind
 def parseRun (s : String) : Spec.C08.RunClass :=
   match s with
   | "nil" => .nil | "canceled" => .canceled | "limit" => .limit | "passes" => .passes
-  | "noammo" => .noammo | "noreturn" => .noreturn | _ => .other
+  | "noammo" => .noammo | "noreturn" => .noreturn | "fault" => .fault | _ => .other
 
 def parseEnd : String → Option Spec.C08.EndClass
   | "closed" => some .closed | "blocked" => some .blocked | "spinning" => some .spinning | "open" => some .open_ | _ => none
@@ -38,6 +39,7 @@ structure Line where
   shots : Nat := 0
   idle : Bool := false
   gate : Nat := 0
+  faults : Spec.C08.Faults := {}
 
 def parseLine (kv : List (String × String)) : Option Line := do
   let kind ← parseKind (getS kv "kind")
@@ -51,7 +53,9 @@ def parseLine (kv : List (String × String)) : Option Line := do
   let pad := (getN? kv "pad").getD 0
   pure { inp := { kind, preload := getS kv "preload" == "1", b := ⟨limit, passes⟩, cancelAt := if cap = 0 then none else some cap },
          n, cell := { limit, passes, n, cap, pad }, mode, cons, shots,
-         idle := getS kv "idle" == "1", gate := (getN? kv "gate").getD 0 }
+         idle := getS kv "idle" == "1", gate := (getN? kv "gate").getD 0,
+         faults := { cfail := (getN? kv "cfail").getD 0, rfail := (getN? kv "rfail").getD 0,
+                     rsticky := getS kv "rsticky" == "1", ofail := getS kv "ofail" == "1" } }
 
 def classOf : RunRes → Spec.C08.RunClass
   | .nil => .nil | .canceled => .canceled | .errLimit => .limit | .errPasses => .passes
@@ -98,6 +102,30 @@ def parseObs (kv : List (String × String)) : Option Spec.C08.Obs := do
          end_ := ← parseEnd (getS kv "end"), ops := ← getN? kv "ops",
          seqOk := getS kv "seq" == "ok" || getS kv "seq" == "na" }
 
+def parseHits (kv : List (String × String)) : Spec.C08.Hits :=
+  { r := getS kv "rhit" == "1", c := getS kv "chit" == "1", o := getS kv "ohit" == "1" }
+
+/-- what closing the ammo file gives in a cell with this fault plan -/
+def closeOutOf (f : Spec.C08.Faults) : CloseOut :=
+  if f.cfail = 1 then .fails else if f.cfail = 2 then .absent else .ok
+
+/-- a fault cell: `base` = the model's observation of the cell without the fault (`modelDrain`).
+Only the close fails (`cfail`, no read / open fault): the deferred cleanup decides what `Run` returns
+(`Model.C08.finalClass`: the http family reports the failure, the others drop it) — everything is predicted but
+whether the families that drop the result call Close at all (echoed).  A read / open fault: where the k-th file
+operation falls is not modelled; an observation that satisfies the Spec's fault clauses is echoed. -/
+def modelFault (l : Line) (ikv : List (String × String)) (base : String) (implOk : Bool) (impl : String) : String :=
+  let f := l.faults
+  if f.rfail != 0 || f.ofail then (if implOk then impl else base)
+  else
+    let bkv := parseKV base
+    let baseRun : RunRes := if getS bkv "run" == "canceled" then .canceled else .nil
+    let run := match finalClass l.inp.kind baseRun (closeOutOf f) with
+      | some .nil => "nil" | some .canceled => "canceled" | some _ => "other" | none => "fault"
+    let chit := if f.cfail = 2 then "0" else if l.inp.kind.isHttp then "1" else getS ikv "chit" "0"
+    let fired := match lookup bkv "fired" with | some x => s!" fired={x}" | none => ""
+    s!"delivered={getS bkv "delivered"} cut={getS bkv "cut"}{fired} run={run} end={getS bkv "end"} seq={getS bkv "seq"} ops={getS bkv "ops"} rhit=0 chit={chit} ohit=0"
+
 def parseStall (kv : List (String × String)) : Option Spec.C08.StallObs := do
   pure { delivered := ← getN? kv "delivered", cut := getS kv "cut" == "1", ret := getS kv "ret" == "1",
          run := parseRun (getS kv "run"), left := ← getN? kv "left", end_ := ← parseEnd (getS kv "end"),
@@ -137,8 +165,32 @@ def handle : Handler := fun input impl =>
     if l.n = 0 then ("-", "skip:empty-file") else
     let ikv := parseKV impl
     match lookup ikv "construct" with
-    | some e => (modelDrain l [], s!"fail:construct:{e}")
+    | some e =>
+      if l.faults.any then
+        -- the constructor hit the injected fault (it reads / closes the ammo file itself): not the model's ground
+        let v := Spec.C08.constructJudge (parseHits ikv) e
+        (if v == "ok" then impl else modelDrain l [], v)
+      else (modelDrain l [], s!"fail:construct:{e}")
     | none =>
+      if l.faults.any then
+        match l.mode with
+        | .drain | .ext | .tcan =>
+          if l.cell.cap = 0 ∧ !Spec.C08.bounded l.cell then ("-", "skip:unbounded-cell-without-cap") else
+          let isExt := l.mode != .drain
+          match parseObs ikv with
+          | none => (modelDrain l [] (if isExt then some "0" else none), s!"fail:crash:{impl.take 120}")
+          | some o =>
+            let fired := isExt && getS ikv "fired" == "1"
+            let ac := l.inp.kind.answersCanceled
+            let hits := parseHits ikv
+            let ok := Spec.C08.faultHolds l.cell ac hits fired o
+            let base :=
+              if fired ∧ ok then
+                s!"delivered={o.delivered} cut={b01 o.cut} fired=1 run={if o.run == .fault then "canceled" else runClassName o.run} end=closed seq={getS ikv "seq"} ops={getS ikv "ops"}"
+              else modelDrain l ikv (if isExt then some (getS ikv "fired" "0") else none)
+            (modelFault l ikv base ok impl, Spec.C08.faultJudge l.cell ac hits fired o)
+        | _ => ("-", "fail:driver:a fault plan is only defined for the modes drain, ext and tcan")
+      else
       match l.mode with
       | .drain =>
         if l.cell.cap = 0 ∧ !Spec.C08.bounded l.cell then ("-", "skip:unbounded-cell-without-cap") else
